@@ -3,6 +3,7 @@ package world
 import (
 	"sync"
 
+	"github.com/go-kid/ioc/component_definition"
 	"github.com/go-kid/ioc/container/processors"
 )
 
@@ -12,6 +13,9 @@ type SubPlan struct {
 	Before bool `json:"before,omitempty"` // PostProcessBeforeInitialization returns a wrapper
 	After  bool `json:"after,omitempty"`  // PostProcessAfterInitialization returns a wrapper
 	Same   bool `json:"same,omitempty"`   // After re-uses the wrapper made earlier (if any)
+	// Inst: PostProcessBeforeInstantiation supplies a wrapper in the component's place (the component itself
+	// is then never built by the container)
+	Inst bool `json:"inst,omitempty"`
 	// SameType: the substitute is a fresh instance of the component's own concrete type (a decorated
 	// copy), so it can also stand in for *T fields; otherwise it is a *Wrap.
 	SameType bool `json:"same_type,omitempty"`
@@ -83,6 +87,16 @@ func (s *Substituter) wrap(c any, name string, reuse bool) any {
 		}
 	}
 	return w
+}
+
+func (s *Substituter) PostProcessBeforeInstantiation(m *component_definition.Meta, name string) (any, error) {
+	s.mu.Lock()
+	defer s.mu.Unlock()
+	s.Calls["inst:"+name]++
+	if p, ok := s.Plan[name]; ok && p.Inst {
+		return s.wrap(m.Raw, name, false), nil
+	}
+	return nil, nil
 }
 
 func (s *Substituter) GetEarlyBeanReference(c any, name string) (any, error) {
